@@ -192,6 +192,17 @@ class PlainModel(object):
         return '<PlainModel %s>' % self.name
 
 
+class EmptyModel(PlainModel):
+    """a container-like model that is currently empty: falsy"""
+    def __len__(self):
+        return 0
+
+
+class FalseModel(PlainModel):
+    def __bool__(self):
+        return False
+
+
 class Ctx(object):
     """instrumented context manager"""
 
@@ -239,10 +250,20 @@ def lifecycle_case(clsname, queued, rng):
     states = ['A', 'B', 'C']
     trans = [['go', 'A', 'B'], ['go', 'B', 'C'], ['go', 'C', 'A'], ['back', 'B', 'A']]
     n0 = rng.randint(1, 3)
-    models = [PlainModel('m%d' % i) for i in range(n0)]
-    mach = cls(model=list(models), states=states, transitions=trans, initial='A', queued=queued,
-               after_state_change='note', auto_transitions=rng.random() < 0.5, **kw)
+    # some models are FALSY objects (container-like with __len__ == 0, or __bool__ False): legal models
+    mk = rng.choice([PlainModel, PlainModel, EmptyModel, FalseModel])
+    models = [(mk if rng.random() < 0.7 else PlainModel)('m%d' % i) for i in range(n0)]
     info = {'class': clsname, 'queued': queued}
+    auto = rng.random() < 0.5
+    try:
+        mach = cls(model=list(models), states=states, transitions=trans, initial='A', queued=queued,
+                   after_state_change='note', auto_transitions=auto, **kw)
+    except Exception as e:      # noqa — registering legal models must not fail
+        return [('registering-the-models-failed', dict(info, err=repr(e)[:160], models=[type(m).__name__ for m in models]),
+                 'C10.add-later')]
+    if [getattr(m, 'state', None) for m in models] != ['A'] * len(models):
+        return [('model-without-the-initial-state', dict(info, states=[getattr(m, 'state', None) for m in models],
+                                                          models=[type(m).__name__ for m in models]), 'C10.add-later')]
 
     def bad(what, sig, **d):
         out.append((what, dict(info, **d), sig))
@@ -252,9 +273,16 @@ def lifecycle_case(clsname, queued, rng):
     # some events first
     for _ in range(rng.randint(0, 3)):
         m = rng.choice(models)
+        others = [(o, o.state) for o in models if o is not m]
         k, r = call(mach, m.go)
         if k != 'ok':
             bad('event-failed-%s' % k, 'C10.lifecycle', err=repr(r))
+            return out
+        moved = [o.name for o, st in others if o.state != st]
+        others = None       # (must not keep the models alive: collectability is checked below)
+        if moved:
+            bad('event-on-one-model-moved-another', 'C10.independence', event_on=m.name, moved=moved,
+                model_class=type(m).__name__)
             return out
     # a model added with an Enum member as its own initial state — also a FALSY member (IntEnum value 0)
     if rng.random() < 0.35:
@@ -530,10 +558,22 @@ def two_machines_case(rng):
     bstates = ['b0', 'b1', 'b2']
     btrans = [['f0', 'b0', 'b1'], ['f0', 'b1', 'b2'], ['f1', '*', 'b0']]
     auto = rng.random() < 0.6
-    mb = Machine(model=[both.model_objs[m] for m in d.models], states=bstates, transitions=btrans, initial='b0',
+    # the second machine may declare a trigger under a NAME the first machine uses too: the model keeps the first
+    # machine's method (the second one is skipped with a warning); removing the second machine's transitions for
+    # that name later must leave the first machine's method on the model alone
+    shared = flat.ename(d.events[0][0]) if d.events and rng.random() < 0.5 else None
+    btrans_b = btrans + ([[shared, 'b0', 'b1']] if shared else [])
+    mb = Machine(model=[both.model_objs[m] for m in d.models], states=bstates, transitions=btrans_b, initial='b0',
                  model_attribute='mode', auto_transitions=auto)
     ref = Machine(model=[PlainModel('x') for _ in d.models], states=bstates, transitions=btrans, initial='b0',
                   model_attribute='mode', auto_transitions=auto)
+    if shared:
+        mb.remove_transition(shared)
+        gone = [m for m in d.models if not callable(getattr(both.model_objs[m], shared, None))]
+        if gone:
+            out.append(('second-machine-removed-the-first-machines-trigger', {'trigger': shared, 'models': gone},
+                        'C10.two-machines'))
+            return out, d
     if auto:
         # every helper of a machine with a custom model_attribute carries that attribute in its name: nothing may be
         # bound under the plain to_<state> / is_<state> names (those belong to a machine using the default attribute),
